@@ -85,6 +85,10 @@ def step (line : String) : String :=
     match bytesOfHex hex with
     | some bs => s!"ok {envelopeAlloc bs}"
     | none => "bad-op"
+  | ["A", "frameat", thr, hex] =>
+    match thr.toNat?, bytesOfHex hex with
+    | some thr, some bs => s!"ok {frameAllocT thr bs}"
+    | _, _ => "bad-op"
   | ["A", "frame", hex] =>
     match bytesOfHex hex with
     | some bs => s!"ok {frameAlloc bs}"
